@@ -193,7 +193,8 @@ def for_keymap(ip, s, st, mv, k, spec):
                 raise U("loop #%s changes the dict of lists it iterates" % k)
             if kind in ("next", "continue"):
                 s4.env["$seen"] = Opaque(T("(store %s %s true)" % (seen.s, key.s), HAS))
-                check_invariants(ip, k, spec, s4, "preserve")
+                from .stmts import end_of_body          # the invariants, and LoopSpec.body_end (per-iteration postconditions)
+                end_of_body(ip, k, spec, s4, None)
             elif kind == "break":
                 s4.trace += "B."
                 s4.notes["inloop_%s" % k] = False
